@@ -36,7 +36,7 @@ type FamilyOpts struct {
 	// RunOpts lets a family install hooks per run index.
 	RunOptsFor func(g *Group, run int) RunOpts
 	// After is called with every group and its observations (for cross-run checks).
-	After func(g *Group, obs []Observed) (kind string, detail string)
+	After      func(g *Group, obs []Observed) (kind string, detail string)
 	Invariants []string
 	// Slices > 1 runs that many TLC processes in parallel, each on one slice of the family
 	// (the cfg text must contain the placeholders %SLICE% and %SLICES%).
@@ -57,26 +57,26 @@ func Collect(run *vf.Run, fo FamilyOpts) (map[string]*Group, *vf.TLCResult, erro
 		slices = 1
 	}
 	onOut := func(raw json.RawMessage) {
-			var c Case
-			if err := json.Unmarshal(raw, &c); err != nil {
-				mu.Lock()
-				if decodeErr == nil {
-					decodeErr = fmt.Errorf("decoding TLC case: %v in %.300s", err, string(raw))
-				}
-				mu.Unlock()
-				return
-			}
-			text := Render(&c.Scen)
-			rq, _ := json.Marshal(c.Scen.Req)
-			key := text + "\x00" + string(rq)
+		var c Case
+		if err := json.Unmarshal(raw, &c); err != nil {
 			mu.Lock()
-			g := groups[key]
-			if g == nil {
-				g = &Group{Scen: c.Scen, Text: text, Allowed: map[string]Outcome{}}
-				groups[key] = g
+			if decodeErr == nil {
+				decodeErr = fmt.Errorf("decoding TLC case: %v in %.300s", err, string(raw))
 			}
-			g.Allowed[c.Out.Key(fo.Proj)] = c.Out
 			mu.Unlock()
+			return
+		}
+		text := Render(&c.Scen)
+		rq, _ := json.Marshal(c.Scen.Req)
+		key := text + "\x00" + string(rq)
+		mu.Lock()
+		g := groups[key]
+		if g == nil {
+			g = &Group{Scen: c.Scen, Text: text, Allowed: map[string]Outcome{}}
+			groups[key] = g
+		}
+		g.Allowed[c.Out.Key(ProjFor(&c.Scen, fo.Proj))] = c.Out
+		mu.Unlock()
 	}
 	results := make([]*vf.TLCResult, slices)
 	errs := make([]error, slices)
@@ -235,7 +235,8 @@ func classify(g *Group, obs *Observed, fo FamilyOpts) (string, string) {
 	if fo.Check != nil {
 		return fo.Check(g, obs)
 	}
-	k := obs.Out.Key(fo.Proj)
+	proj := ProjFor(&g.Scen, fo.Proj)
+	k := obs.Out.Key(proj)
 	if _, ok := g.Allowed[k]; ok {
 		return "", ""
 	}
@@ -245,7 +246,7 @@ func classify(g *Group, obs *Observed, fo FamilyOpts) (string, string) {
 		exp = o
 		break
 	}
-	kind := diffKind(&exp, &obs.Out, fo.Proj)
+	kind := diffKind(&exp, &obs.Out, proj)
 	return kind, fmt.Sprintf("observed %s ; spec allows %v", k, allowedKeys(g))
 }
 
